@@ -18,7 +18,7 @@ RULE = ('generated composers (1-3 timed processes, optional nested sub-compartme
         'composer config / process parameters / Composite.merge, MetaComposer with overlapping and disjoint '
         'keys; non-trivial = embedding depth >=1 or >=3 merges, and a nested sub-compartment or >=2 processes; '
         'distinct = distinct case spec')
-PLAN = {'quick': {'n': 900, 'min_cases': 200}, 'thorough': {'n': 30000, 'min_cases': 3000}}
+PLAN = {'quick': {'n': 2500, 'min_cases': 200}, 'thorough': {'n': 30000, 'min_cases': 3000}}
 REQUIRED_ORACLES = ['embed_structure', 'embed_run', 'merged_in_unchanged', 'merge_is_union', 'entry_points_same_run',
                     'override_reaches_named_only', 'metacomposer_overlap']
 ANCHORS = ['vivarium.core.composer:Composer.generate', 'vivarium.core.process:Process.generate',
@@ -34,7 +34,7 @@ def gen(r, tier, i):
     ops = []
     for _ in range(r.randint(2, 6)):
         k = r.random()
-        p = [r.choice(['c1', 'c2', 'c3']) for _ in range(r.choice([0, 1, 1, 2]))]
+        p = r.choice([[], ['c1'], ['c1'], ['c2'], ['c1', 'sub2'], ['c1', 'sub'], ['c2', 'c1']])
         if k < 0.45:
             ops.append({'form': 'template', 'path': p or ['c1']})
         elif k < 0.7:
@@ -81,16 +81,23 @@ def classes():
             return d
 
         def generate_steps(self, config):
-            return {'s': St(), 't': St()}
+            d = {'s': St(), 't': St()}
+            if config['nest']:
+                d['sub2'] = {'u': St()}       # nested steps and flow: every part has nested dictionaries
+            return d
 
         def generate_flow(self, config):
-            return {'s': [], 't': [('s',)]}
+            d = {'s': [], 't': [('s',)]}
+            if config['nest']:
+                d['sub2'] = {'u': []}
+            return d
 
         def generate_topology(self, config):
             d = {'p%d' % i: {'S': ('st',)} for i in range(config['k'])}
             d.update({'s': {'S': ('st',)}, 't': {'S': ('st2',)}})
             if config['nest']:
                 d['sub'] = {'q': {'S': ('..', 'st2')}}
+                d['sub2'] = {'u': {'S': ('..', 'st')}}
             if config['deriver']:
                 d['drv'] = {'S': ('st3',)}
             return d
@@ -108,6 +115,10 @@ def snap(c):
             return d
         return ('O', id(d))
     return {k: walk(c[k]) for k in ('processes', 'steps', 'flow', 'topology', 'state')}
+
+
+def snap_dicts(d):
+    return None
 
 
 def shape(d, Process):
@@ -179,6 +190,7 @@ def run(spec):
         T = C(cfg).generate()
         T0 = snap(T)
         M = Composite({})
+        loose_list = []
         model = {k: {} for k in ('processes', 'steps', 'flow', 'topology', 'state')}
         merged_in = []
         for op in spec['ops']:
@@ -191,21 +203,27 @@ def run(spec):
                 merged_in.append((src, snap(src)))
                 M.merge(composite=src, path=p)
             else:
-                loose = {'processes': {op['tag']: P({'inc': 2})}, 'topology': {op['tag']: {'S': ('st',)}},
-                         'steps': {op['tag'] + 's': St()}, 'flow': {op['tag'] + 's': []},
+                loose = {'processes': {op['tag']: P({'inc': 2}), 'sub': {op['tag'] + 'q': P({'inc': 3})}},
+                         'topology': {op['tag']: {'S': ('st',)}, 'sub': {op['tag'] + 'q': {'S': ('..', 'st')}},
+                                      'sub2': {op['tag'] + 'u': {'S': ('..', 'st')}}},
+                         'steps': {op['tag'] + 's': St(), 'sub2': {op['tag'] + 'u': St()}},
+                         'flow': {op['tag'] + 's': [], 'sub2': {op['tag'] + 'u': []}},
                          'state': {'st': {'n': 4}} if op['state'] else {}}
                 loose['topology'][op['tag'] + 's'] = {'S': ('st',)}
-                before = {k: copy.copy(v) for k, v in loose.items()}
+                before = copy.deepcopy({k: shape(v, Process) for k, v in loose.items()})
+                before_ids = snap_dicts(loose)
                 M.merge(processes=loose['processes'], topology=loose['topology'], steps=loose['steps'],
                         flow=loose['flow'], state=loose['state'], path=p)
-                V.check('merged_in_unchanged', all(loose[k] == before[k] for k in loose),
-                        lambda: ('merge() modified the loose dictionaries handed in', op))
+                loose_list.append((loose, before, op))
                 src = loose
             for key in model:
                 model[key] = union(model[key], nestp(p, shape(src.get(key, {}), Process)))
         V.check('merged_in_unchanged', snap(T) == T0,
                 lambda: ('a template composite merged several times was modified by the merges',
                          _snapdiff(T0, snap(T))))
+        for loose, before, op in loose_list:
+            V.check('merged_in_unchanged', {k: shape(v, Process) for k, v in loose.items()} == before,
+                    lambda: ('merge() / later merges modified the loose dictionaries handed in', op))
         for src, s0 in merged_in:
             V.check('merged_in_unchanged', snap(src) == s0,
                     lambda: ('a merged-in composite was modified by later merges', _snapdiff(s0, snap(src))))
